@@ -40,6 +40,13 @@ class Deadlock(BaseException):
     pass
 
 
+MAX_DECISIONS = 1500
+
+
+class TooLong(BaseException):
+    """a run that does not come to an end (never the case for generated programs on the unchanged code)"""
+
+
 class ScheduleExhausted(BaseException):
     """raised out of the event loop when an exploration prefix has been consumed (exhaustive enumeration)"""
 
@@ -216,6 +223,8 @@ class Run:
                        + [('kill', t) for t in parked if pid_of[t] in self.kills] + [('ext', e) for e in self.pending_ext])
             if not options:
                 raise Deadlock()
+            if self.pos >= MAX_DECISIONS:
+                raise TooLong()
             if self.pos < len(self.schedule):
                 c = self.schedule[self.pos] % len(options)
             elif self.stop_at_end:
@@ -249,7 +258,16 @@ class Run:
             raise AssertionError('chosen task has no handle')
 
     def go(self):
+        """run in a fresh context whose stack variable holds a fresh empty list, so that nothing can leak from one run of
+        this worker into the next (e.g. through a shared default value if the code mutated it in place)"""
+        import contextvars
+        return contextvars.Context().run(self._go)
+
+    def _go(self):
         loop = self.loop
+        var = getattr(_pp, 'PROCESS_STACK', None)
+        if var is not None and hasattr(var, 'set'):
+            var.set([])
         try:
             for k in self.scn['top']:
                 p = self.instantiate(k, None)
